@@ -174,6 +174,9 @@ def gen_sig(rng, namer, nmax, depth, malformed):
         else:
             # empty tuple default: a zero-width control; a rate group made only of them raises
             params[i]['default'] = ['t', []]
+            for p in params[i + 1:]:
+                if p['default'][0] == 'none':
+                    p['default'] = ['None']      # Python: no parameter without default after one with a default
             if rng.random() < 0.5:
                 for p in params:
                     if p['default'][0] != 't':
@@ -361,6 +364,9 @@ def battery():
              calls=[{'args': [['0', True], ['0', False], ['0', 'b']], 'kwargs': [['f', ['0', True]], ['zz', ['0', False]], ['a', ['0', 'nz']]]}]),
         case('b_prepend_scalar0', sig([P('a'), P('freq', None, S(440))], prepend=1) | {'prepend_vals': ['scalar', ['n', '0', True]]},
              calls=[{'args': [['330', True]], 'kwargs': []}]),
+        case('b_prepend_rates', sig([P('buf'), P('a', None, S(1)), P('b', 'tr', T(2, 3)), P('c', None, T(4, 5, 6)), P('d', None, S(7))],
+                                    rates=['ar', None, ['lags', [['1/8', False], ['1/4', False]]], 'ir'], prepend=1),
+             calls=[{'args': [['9', True], ['8', True]], 'kwargs': [['d', ['0', True]]]}]),
         case('b_prepend_falsy', sig([P('a'), P('b'), P('c'), P('freq', None, S(440))], prepend=3)
              | {'prepend_vals': ['list', [['n', '0', True], ['none'], ['list']]]}),
         case('b_prepend_emptylist', sig([P('freq', None, S(440))]) | {'prepend_vals': ['list', []]}, empty_dicts=True),
@@ -497,7 +503,7 @@ def c_case(case, o):
     else:
         ov = '{| v_count := 0; v_written := []; v_raised := false |}'
         calls = '[]'
-    return '(%s, %s, %s, %s, %s, %s, %s)' % (c_tree(case['tree']), specs, c_observed(o), cstr(case['name']), vs, ov, calls)
+    return '((%s, %s, %s, %s, %s, %s, %s) : ccase)' % (c_tree(case['tree']), specs, c_observed(o), cstr(case['name']), vs, ov, calls)
 
 
 HEADER = ('From Coq Require Import String List QArith Bool. Import ListNotations.\n'
